@@ -56,6 +56,8 @@ func runCheck(args []string) int {
 	fs.StringVar(&cfg.Replay, "replay", "", "replay a recorded violation file")
 	fs.IntVar(&cfg.Workers, "workers", runtime.NumCPU(), "parallel workers")
 	fs.Float64Var(&cfg.Scale, "scale", 1, "scale the number of cases (debugging)")
+	fs.IntVar(&cfg.Shard, "shard", 0, "shard index (children of sharded engines)")
+	fs.IntVar(&cfg.Shards, "shards", 0, "number of shards (0 = this is the parent)")
 	prof := fs.String("cpuprofile", "", "write a CPU profile")
 	fs.Parse(args)
 	if *prof != "" {
@@ -98,6 +100,12 @@ func runCheck(args []string) int {
 			fmt.Fprintf(os.Stderr, "engine %s not implemented\n", info.Engine)
 			return 2
 		}
+	}
+	if cfg.Shards > 0 {
+		// a shard child: hand everything to the parent and stop
+		b, _ := json.Marshal(dumpShard(rep, cov))
+		fmt.Printf("SHARD-RESULT %s\n", b)
+		return 0
 	}
 	ev.Coverage["rule"] = info.Rule
 	code = rep.Finish(ev)
